@@ -56,20 +56,49 @@ Fixpoint all_res {A} (f : A -> res verr bool) (l : list A) : res verr bool :=
   | x :: l' => do b <- f x; if b then all_res f l' else Ok false
   end.
 
-(* [type_is_scalar_common] with [type_check] = chk *)
-Fixpoint is_scalar (fuel : nat) (d : defs) (chk : ity -> bool) (s : ps) : res verr bool :=
+(* [type_resolve], remembering which definition's body it ended in (None: the
+   schema itself was not a reference).  The body of a definition is one
+   object in memory however it is reached: its name stands for its address. *)
+Fixpoint resolve_named (fuel : nat) (d : defs) (seen : list str) (last : option str) (s : ps)
+  : res verr (option str * ps) :=
+  match s with
+  | SRef n =>
+      match fuel with
+      | O => Err VE_fuel
+      | S f =>
+          if mem_str n seen then Err VE_cycle
+          else match lookup_def n d with
+               | None => Err VE_bad_ref
+               | Some s' => resolve_named f d (n :: seen) (Some n) s'
+               end
+      end
+  | _ => Ok (last, s)
+  end.
+
+(* [type_is_scalar_common] with [type_check] = chk.  [path]: the definitions
+   whose bodies are being examined further up (type_is_scalar_path's [path],
+   compared by address): a type that contains itself through allOf / anyOf /
+   oneOf is not scalar (fix 97a0ad7; before it the recursion had no bound and
+   the process died of a stack overflow). *)
+Fixpoint is_scalar_path (fuel : nat) (d : defs) (chk : ity -> bool) (path : list str) (s : ps) : res verr bool :=
   match fuel with
   | O => Err VE_fuel
   | S f =>
-      do s' <- resolve (S (length d)) d [] s;
-      match s' with
-      | SType t => Ok (chk t)
-      | SAll [x] => is_scalar f d chk x
-      | SAny [x] => is_scalar f d chk x
-      | SOne l => all_res (is_scalar f d chk) l
-      | _ => Ok false
-      end
+      do ns <- resolve_named (S (length d)) d [] None s;
+      let '(name, s') := ns in
+      if match name with Some n => mem_str n path | None => false end then Ok false
+      else
+        let path' := match name with Some n => n :: path | None => path end in
+        match s' with
+        | SType t => Ok (chk t)
+        | SAll [x] => is_scalar_path f d chk path' x
+        | SAny [x] => is_scalar_path f d chk path' x
+        | SOne l => all_res (is_scalar_path f d chk path') l
+        | _ => Ok false
+        end
   end.
+Definition is_scalar (fuel : nat) (d : defs) (chk : ity -> bool) (s : ps) : res verr bool :=
+  is_scalar_path fuel d chk [] s.
 
 (* [type_is_string_enum] *)
 Definition is_string_array (fuel : nat) (d : defs) (s : ps) : res verr bool :=
